@@ -31,8 +31,13 @@ def norm_atom(a, ops):
     s = s.replace("core::slice::is_empty(arg1.0)", "empty").replace("script::Script::is_empty(arg1)", "empty")
     m = re.match(r"^\((\S+) (Eq|Ne|Lt|Le|Gt|Ge) (\S+)\)$", s)
     if m:
-        op = {"Eq": "==", "Ne": "!=", "Lt": "<", "Le": "<=", "Gt": ">", "Ge": ">="}[m.group(2)]
-        return "%s%s%s" % (m.group(1), op, m.group(3))
+        lhs, opn, rhs = m.group(1), m.group(2), m.group(3)
+        # canonical orientation: the constant on the right (`22 == len` is `len == 22`, `96 >= b0` is `b0 <= 96`)
+        if re.fullmatch(r"\d+", lhs) and not re.fullmatch(r"\d+", rhs):
+            lhs, rhs = rhs, lhs
+            opn = {"Eq": "Eq", "Ne": "Ne", "Lt": "Gt", "Le": "Ge", "Gt": "Lt", "Ge": "Le"}[opn]
+        op = {"Eq": "==", "Ne": "!=", "Lt": "<", "Le": "<=", "Gt": ">", "Ge": ">="}[opn]
+        return "%s%s%s" % (lhs, op, rhs)
     return s
 
 
